@@ -307,6 +307,7 @@ Section SimI.
     assert (E2' : ext st2 st') by (eapply ext_trans; eauto).
     assert (E1p' : ext st1p st') by (eapply ext_trans; eauto).
     assert (E1' : ext st1 st') by (eapply ext_trans; eauto).
+    assert (E0' : ext st st') by (eapply ext_trans; eauto).
     assert (IP1a : ip st1a = ip st1 + 4) by reflexivity.
     (* without the jump there is nothing after the branch *)
     assert (NOJ : hj = false -> c_rest = [] /\ st' = st2 /\ resreg = None).
@@ -337,7 +338,8 @@ Section SimI.
       destruct (eval n s c) as [vc s1| | | |]; try contradiction; [|exact DYc|exact Logic.I].
       destruct DYc as (rs1 & S1 & LN1 & IV1 & R1 & FR1 & SF1 & _).
       apply dirty_any in IV1. specialize (R1 _ OC).
-      assert (CAJ' : code_at prog (ip st1) [IJumpIfFalse creg (ip st2j - (ip st1 + 4))]) by (rewrite I1; exact CAJ).
+      assert (EQ1 : ip st + code_size cc = ip st1) by (rewrite I1; reflexivity).
+      assert (CAJ' : code_at prog (ip st1) [IJumpIfFalse creg (ip st2j - (ip st1 + 4))]) by (rewrite EQ1 in CAJ; exact CAJ).
       pose proof (istep_at pool _ _ _ rs1 CAJ') as STJ. cbn [exec size] in STJ.
       unfold with_reg in STJ. rewrite R1 in STJ.
       assert (FRk : forall k, k < tbase st + tcount st ->
@@ -357,21 +359,24 @@ Section SimI.
         assert (IV1p : inv st1p D s1 rs1) by (eapply inv_ext; eauto).
         assert (DOt : dest_ok st1p ectx rs1 D t).
         { intros d Ed. destruct resreg as [reg|] eqn:RR; cbn in Ed; inversion Ed; subst d.
-          destruct (RO reg eq_refl) as (A1 & A2 & A3). pose proof (ext_len _ _ E01p). splits.
+          destruct (RO reg RR) as (A1 & A2 & A3). pose proof (ext_len _ _ E01p). splits.
           - lia.
           - destruct A2 as [A2|A2]; [left; lia|right; lia].
           - intros x Sx. assert (Sx0 : slot_of st x = Some reg).
-            { destruct A2 as [A2|A2]; [eapply slot_of_old; eauto|].
+            { destruct A2 as [A2|A2]; [exact (slot_of_old st st1p x reg E01p A2 Sx)|].
               destruct (slot_of_id _ _ _ Sx) as (L1 & _). pose proof (wf_len _ W1p). lia. }
             destruct (A3 x Sx0) as (F & _). cbn in F. apply andb_prop in F. tauto. }
         assert (LOt : esc t = true -> loop_ok st1p rs1 D t).
-        { intros E0. rewrite loop_ok_P. eapply (loop_okP_ext st st1p rs rs1); eauto; try lia.
+        { intros E0. rewrite loop_ok_P.
+          apply (loop_okP_ext st st1p rs rs1 D (asg_arms ((c, t) :: rest) els) (fun x => assigns x t) E01p W1p);
+            [lia|exact LN1| |].
           - intros x AX. unfold asg_arms. cbn. rewrite AX. rewrite !orb_true_r. reflexivity.
           - apply LO. cbn. rewrite E0. rewrite !orb_true_r. reflexivity. }
         assert (B2 : tbase st1p + tused st2 <= N.of_nat (length rs1)).
         { rewrite LN1, TB1p. pose proof (ext_used _ _ E2'). lia. }
         assert (CAt' : cares prog brk (ip st1p) ct).
-        { rewrite I1p, IP1a, I1. cbn [app size] in CAt. exact CAt. }
+        { match type of CAt with cares _ _ ?pc _ => assert (EQ : pc = ip st1p) by (cbn [size]; lia) end.
+          rewrite EQ in CAt. exact CAt. }
         specialize (DYt n s1 rs1 D prog brk Kt IV1p RDt DOt LOt B2 CAt').
         unfold post_arms. rewrite <- (ext_loops _ _ E01p).
         assert (KD : forall k, Some k <> resreg -> Some k <> dest ectx).
@@ -387,8 +392,8 @@ Section SimI.
           { destruct hj eqn:HJE.
             - cbn [app] in CA3. apply cares_cons in CA3 as [CAJ2 _]; [|reflexivity].
               assert (CAJ2' : code_at prog (ip st2) [IJump (ip st' - ip st2j)]).
-              { rewrite I2, I1p, IP1a, I1. cbn [app size] in CAJ2. rewrite code_size_app in CAJ2.
-                cbn [code_size] in CAJ2. rewrite N.add_0_l in CAJ2. rewrite <- !N.add_assoc in *. exact CAJ2. }
+              { match type of CAJ2 with code_at _ ?pc _ => assert (EQ : pc = ip st2) by (cbn [size]; lia) end.
+                rewrite EQ in CAJ2. exact CAJ2. }
               apply star_one. rewrite (istep_at _ _ _ _ rs2 CAJ2'). cbn [exec size]. f_equal. lia.
             - destruct (NOJ eq_refl) as (_ & -> & _). constructor. }
           exists rs2. splits; auto.
@@ -427,32 +432,143 @@ Section SimI.
         { eapply star_trans; [exact S1|]. apply star_one. rewrite STJ. f_equal.
           pose proof (ext_len _ _ E2). rewrite IP2j, I2, I1p, IP1a. lia. }
         assert (IV2j : inv st2j D s1 rs1).
-        { eapply inv_ext; [exact IV1| |exact W2j]. eapply ext_trans; [exact E1p2|]. eapply ext_trans; eauto. }
+        { eapply inv_ext; [exact IV1| |exact W2j]. eapply ext_trans; [exact E1p2|]. eapply ext_trans; [exact E2|exact E22j]. }
         assert (ROj : res_ok st2j rs1 rest).
         { intros reg RG. destruct (RO reg RG) as (A1 & A2 & A3). pose proof (ext_len _ _ E02j). splits.
           - lia.
           - destruct A2 as [A2|A2]; [left; lia|right; lia].
           - intros x Sx. assert (Sx0 : slot_of st x = Some reg).
-            { destruct A2 as [A2|A2]; [eapply slot_of_old; eauto|].
+            { destruct A2 as [A2|A2]; [exact (slot_of_old st st2j x reg E02j A2 Sx)|].
               destruct (slot_of_id _ _ _ Sx) as (L1 & _). pose proof (wf_len _ W2j). lia. }
             destruct (A3 x Sx0) as (F & F2). cbn in F. apply andb_prop in F. tauto. }
         assert (ASr : forall x, asg_arms rest els x = true -> asg_arms ((c, t) :: rest) els x = true).
         { intros x AX. unfold asg_arms in *. cbn. apply orb_true_iff in AX as [AX|AX]; rewrite AX; rewrite ?orb_true_r; reflexivity. }
         assert (LOj : any_arms esc rest || any_opt esc els = true -> loop_okP st2j rs1 D (asg_arms rest els)).
-        { intros E0. eapply (loop_okP_ext st st2j rs rs1); eauto; try lia.
+        { intros E0.
+          apply (loop_okP_ext st st2j rs rs1 D (asg_arms ((c, t) :: rest) els) (asg_arms rest els) E02j W2j);
+            [lia|exact LN1|exact ASr|].
           apply LO. cbn. apply orb_true_iff in E0 as [E0|E0]; rewrite E0; rewrite ?orb_true_r; reflexivity. }
         assert (B3 : tbase st2j + tused st' <= N.of_nat (length rs1)) by (rewrite LN1, TB2j'; exact B).
         assert (CAr : cares prog brk (ip st2j) c_rest).
         { destruct hj eqn:HJE.
           - cbn [app] in CA3. apply cares_cons in CA3 as [_ CAr]; [|reflexivity].
             match type of CAr with cares _ _ ?pc _ => assert (EQ : pc = ip st2j) end.
-            { rewrite IP2j, I2, I1p, IP1a, I1. cbn [app size]. rewrite code_size_app. cbn [code_size size]. lia. }
+            { cbn [size]. lia. }
             rewrite EQ in CAr. exact CAr.
-          - destruct (NOJ eq_refl) as (-> & _ & _). exists []. split; [reflexivity|].
-            destruct CAt as (x & _ & CAx). eapply code_at_nil. exact CAx. }
+          - destruct (NOJ eq_refl) as (-> & _ & _). cbn [app] in CA3.
+            match type of CA3 with cares _ _ ?pc _ => assert (EQ : pc = ip st2j) by (cbn [size]; lia) end.
+            rewrite EQ in CA3. exact CA3. }
         specialize (DYr n s1 rs1 D prog brk Kr Ke IV2j RDr ROj LOj B3 CAr).
         eapply (post_arms_trans st st2j st'); eauto.
         * rewrite (ext_loops _ _ E02j). reflexivity.
         * lia.
   Qed.
 End SimI.
+
+Section SimI2.
+  Variable pool : list pentry.
+
+  Lemma arms_all : forall resreg els,
+    (forall a, els = Some a -> Q pool a /\ wf_expr a = true) ->
+    forall arms, cond_arms wf_expr esc arms = true ->
+      Forall (fun ct => Q pool (fst ct) /\ Q pool (snd ct)) arms -> ArmsS pool resreg els arms.
+  Proof.
+    intros resreg els QE. induction arms as [|[c t] rest IH]; intros WF F.
+    - apply arms_nil. exact QE.
+    - cbn [cond_arms] in WF. apply andb_prop in WF as [WF WFr]. apply andb_prop in WF as [WF WFt].
+      apply andb_prop in WF as [NE WFc]. apply negb_true_iff in NE.
+      inversion F as [|? ? [Qc Qt] Fr]; subst. cbn [fst snd] in *.
+      apply arms_cons; auto.
+  Qed.
+
+  Lemma ifQ : forall c t elifs els, Q pool c -> Q pool t ->
+    Forall (fun ct => Q pool (fst ct) /\ Q pool (snd ct)) elifs ->
+    (forall e, els = Some e -> Q pool e) -> Q pool (EIf c t elifs els).
+  Proof.
+    intros c t elifs els Qc Qt Qel Qe WF r st out st' code H W Dr.
+    cbn [wf_expr] in WF. apply andb_prop in WF as [WFa WFe].
+    cbn [dropped] in Dr. apply orb_false_elim in Dr as [Dra Dre].
+    cbn [comp] in H.
+    apply bind_inv in H. destruct H as (res & st1 & c1 & c2 & HR & H & ->).
+    pose proof (fun rs D e => shape_reg_bound _ _ _ _ _ rs D e HR W) as RB.
+    apply assign_result_inv in HR; [|assumption]. destruct HR as (-> & I1 & E1 & W1 & L1 & T1 & SH).
+    apply bind_inv in H. destruct H as (u & st2 & ca & c3 & HA & H & ->).
+    unfold ret in H. inversion H; subst out st' c3; clear H.
+    assert (QE : forall a, els = Some a -> Q pool a /\ wf_expr a = true).
+    { intros a EA. split; [apply Qe; assumption|]. subst els. exact WFe. }
+    assert (AS : ArmsS pool (o_reg res) els ((c, t) :: elifs)).
+    { apply arms_all; auto. }
+    assert (DM : (match o_reg res with None => true | Some _ => false end) = is_none r).
+    { destruct r; [destruct SH as (-> & _)|destruct SH as (-> & _)|destruct SH as (-> & _)]; reflexivity. }
+    destruct (AS _ _ _ _ _ HA W1) as ((I2 & E2 & W2 & TC2) & DY).
+    { rewrite DM. exact Dra. }
+    { rewrite DM. destruct els; [exact Dre|exact Logic.I]. }
+    { intros HF. apply orb_false_elim in HF as [HF H3]. apply orb_false_elim in HF as [H1 H2].
+      apply negb_false_iff in H1. splits.
+      - destruct elifs; [eauto|discriminate].
+      - destruct els; [discriminate|reflexivity].
+      - destruct (o_reg res); [discriminate|reflexivity]. }
+    assert (E0' : ext st st2) by (eapply ext_trans; eauto).
+    split.
+    - unfold factsQ. splits; auto.
+      + rewrite !code_size_app. cbn [code_size]. lia.
+      + unfold shapeQ. cbn [is_jump shape]. destruct r; cbn [shape].
+        * destruct SH as (-> & ->). auto.
+        * left. destruct SH as (-> & C & _). split; [reflexivity|lia].
+        * destruct SH as (-> & ->). auto.
+    - intros n s rs D prog brk K IV RD DO LO B CA. destruct n; [exact Logic.I|].
+      change (eval (S n) s (EIf c t elifs els)) with (eval_elifs (eval n) s ((c, t) :: elifs) els).
+      cbn [known_expr] in K. apply orb_false_elim in K as [Ka Ke].
+      norm_code CA.
+      assert (IV1 : inv st1 D s rs) by (eapply inv_ext; eauto).
+      assert (RD1 : forall x, D x = true ->
+                 any_arms (reads x) ((c, t) :: elifs) = false /\ any_opt (reads x) els = false).
+      { intros x Dx. apply RD in Dx. cbn [reads] in Dx. apply orb_false_elim in Dx. exact Dx. }
+      assert (RK : (exists d, r = RFixed d /\ o_reg res = Some d /\ st1 = st) \/
+                   (r = RAny /\ o_reg res = Some (tbase st + tcount st) /\ tcount st1 = tcount st + 1) \/
+                   (r = RNone /\ o_reg res = None /\ st1 = st)).
+      { destruct r; [destruct SH as (-> & ->)|destruct SH as (-> & C & _)|destruct SH as (-> & ->)]; cbn; eauto 8. }
+      assert (RO : res_ok (o_reg res) els st1 rs ((c, t) :: elifs)).
+      { intros reg RG. destruct RK as [(d & -> & RR & ->)|[(-> & RR & C)|(-> & RR & ->)]]; rewrite RR in RG; inversion RG; subst.
+        - destruct (DO _ eq_refl) as (A1 & A2 & A3). splits; auto. intros x Sx. specialize (A3 x Sx).
+          cbn [fixed_ok] in A3. apply andb_prop in A3. exact A3.
+        - pose proof (wf_cnt _ W1). pose proof (ext_used _ _ E2). splits.
+          + lia.
+          + right. lia.
+          + intros x Sx. exfalso. destruct (slot_of_id _ _ _ Sx) as (L & _). pose proof (wf_len _ W1). lia. }
+      assert (LO1 : any_arms esc ((c, t) :: elifs) || any_opt esc els = true ->
+                    loop_okP st1 rs D (asg_arms ((c, t) :: elifs) els)).
+      { intros E0. specialize (LO E0). rewrite loop_ok_P in LO.
+        eapply (loop_okP_ext st st1 rs rs D); eauto.
+        destruct RK as [(d & _ & _ & ->)|[(_ & _ & C)|(_ & _ & ->)]]; lia. }
+      assert (B1 : tbase st1 + tused st2 <= N.of_nat (length rs)) by (rewrite T1; exact B).
+      rewrite <- I1 in CA.
+      specialize (DY n s rs D prog brk Ka Ke IV1 RD1 RO LO1 B1 CA).
+      unfold post_arms in DY. rewrite (ext_loops _ _ E1) in DY. rewrite I1 in DY.
+      assert (DW : forall x, dirty st2 (fixed_or_none (o_reg res)) D x = true -> dirty st2 r D x = true).
+      { intros x Hx. destruct RK as [(d & -> & RR & ->)|[(-> & RR & C)|(-> & RR & ->)]]; rewrite RR in Hx; cbn [fixed_or_none] in Hx.
+        - exact Hx.
+        - eapply (dirty_absorb st st2 st2); eauto using ext_refl. right. split; [reflexivity|lia].
+        - exact Hx. }
+      assert (KR : forall k, k < tbase st + tcount st -> Some k <> dest r ->
+                     k < tbase st1 + tcount st1 /\ Some k <> o_reg res).
+      { intros k K1 K2. destruct RK as [(d & -> & RR & ->)|[(-> & RR & C)|(-> & RR & ->)]]; rewrite RR.
+        - split; [lia|exact K2].
+        - split; [lia|]. intros E0. inversion E0. lia.
+        - split; [lia|discriminate]. }
+      unfold frame, frameL.
+      destruct (eval_elifs (eval n) s ((c, t) :: elifs) els) as [v s'|v s'|s'|ce|]; auto.
+      + destruct DY as (rs' & A1 & A2 & A3 & A4 & A5 & A6). exists rs'. splits; auto.
+        * eapply inv_weaken; eauto.
+        * intros k K1 K2 K3. destruct (KR k K1 K2) as (X1 & X2). apply A5; auto.
+        * intros d ->. apply A4. destruct SH as (-> & _). reflexivity.
+      + destruct (loops st) as [|li ls]; [exact DY|].
+        destruct DY as (rs' & A1 & A2 & A3 & A4 & A5 & A6). exists rs'. splits; auto.
+        * eapply inv_weaken; eauto.
+        * intros k K1 K2 K2' K3. destruct (KR k K1 K2) as (X1 & X2). apply A5; auto.
+      + destruct (loops st) as [|li ls]; [exact DY|].
+        destruct DY as (rs' & A1 & A2 & A3 & A4 & A5 & A6). exists rs'. splits; auto.
+        * eapply inv_weaken; eauto.
+        * intros k K1 K2 K2' K3. destruct (KR k K1 K2) as (X1 & X2). apply A5; auto.
+  Qed.
+End SimI2.
